@@ -46,11 +46,37 @@ def clause_tags(fc):
     return tags
 
 
-def roots_for(cs, pid):
-    out = []
+def anchor_files(pid):
+    """the files a property is anchored in (properties.jsonl), as glob patterns relative to the repository root"""
+    try:
+        for l in open(os.path.join(VERIF, 'properties.jsonl')):
+            d = json.loads(l)
+            if d.get('id') == pid:
+                return list(d.get('anchors', {}).get('files', []))
+    except OSError:
+        pass
+    return []
+
+
+def roots_for(cs, pid, prog=None, repo=None):
+    """where the closure of a property starts: every function with a clause tagged with the property, and every function
+    under contract that is defined in one of the files the property is anchored in (so that a contract written for another
+    property still guards this one where the statement's own files are concerned)"""
+    import fnmatch
+    out = set()
     for key, fc in cs.funcs.items():
         if pid in clause_tags(fc) and not fc.trusted:
-            out.append(key)
+            out.add(key)
+    pats = anchor_files(pid)
+    if prog is not None and pats:
+        root = os.path.abspath(repo or driver.REPO).rstrip('/') + '/'
+        for key, fc in cs.funcs.items():
+            if fc.trusted or getattr(fc, 'inline', False) or not isinstance(key, str) or key not in prog.funcs:
+                continue        # (an `inline` contract only says: expand the body at call sites)
+            fpath = prog.funcs[key].file or ''
+            rel = fpath[len(root):] if fpath.startswith(root) else fpath
+            if any(fnmatch.fnmatch(rel, pt) for pt in pats):
+                out.add(key)
     return sorted(out)
 
 
@@ -89,7 +115,7 @@ class Checker:
         self.prog, self.cs = prog, cs
         self.bounded = []
         self.bounded_replay = {}
-        roots = roots_for(cs, pid)
+        roots = roots_for(cs, pid, prog, self.repo)
         if not roots:
             print('CONTRACT-ERROR: no function contract carries property %s' % pid)
             return 2
@@ -227,9 +253,23 @@ class Checker:
                                'findings': [w for _, w in sf], 'failing_input_found': False}, f_, indent=1)
                 print('VIOLATION property=%s replay=%s obligation="instances share no mutable state through package-level variables (%s)" no-failing-input-found'
                       % (pid, gp, g.rsplit('/', 1)[-1]))
+            # A2 (the code is a function of its inputs): every range over a map, clock read, random draw or goroutine in the module
+            # must be accepted by a directive that says why the result does not depend on it - or that it is meant to
+            nf, self.nondet_accepted = shared_mod.nondeterminism(prog, cs)
+            for g, what in nf:
+                print('NONDETERMINISM: %s' % what)
+                gp = os.path.join(VERIF, 'replays', '%s-nondeterminism.json' % pid)
+                os.makedirs(os.path.join(VERIF, 'replays'), exist_ok=True)
+                with open(gp, 'w') as f_:
+                    json.dump({'property': pid, 'obligation': 'no unaccepted source of nondeterminism in the module',
+                               'findings': [w for _, w in nf], 'failing_input_found': False}, f_, indent=1)
+                print('VIOLATION property=%s replay=%s obligation="no unaccepted source of nondeterminism (%s)" no-failing-input-found'
+                      % (pid, gp, g.rsplit('/', 1)[-1]))
+            sf = sf + nf
             self.shared_findings = sf
         else:
             self.shared_findings = []
+            self.nondet_accepted = []
         # discharge
         items = []
         self.deferred = []
@@ -483,13 +523,14 @@ class Checker:
                 'deferred_to_thorough_tier': self.deferred,
                 'bounded': self.bounded,
                 'ownership_scan': {'scope': 'every package-level variable of the module (go/ssa): handed on to instances and mutable, or written outside init',
-                                   'findings': [w for _, w in self.shared_findings], 'accepted_shared': self.shared_accepted, 'variables': self.shared_report},
+                                   'findings': [w for _, w in self.shared_findings], 'accepted_shared': self.shared_accepted, 'variables': self.shared_report,
+                                   'accepted_nondeterminism': getattr(self, 'nondet_accepted', [])},
                 'integer_mode': 'mathematical Int with exact wrap-around (wrap64/wrap32) on + - *; lengths <= 2^40 assumed',
                 'extraction': 'go/ssa built from the working tree on this run; drops comments, parenthesisation, names of temporaries',
                 'samples': samples,
                 'load_time_s': round(prog.load_time, 2),
             },
-            'assumptions': sorted(set(cs.assumptions)) + ASSUMPTIONS + ['A17 ' + a for a in self.shared_accepted],
+            'assumptions': sorted(set(cs.assumptions)) + ASSUMPTIONS + ['A17 ' + a for a in self.shared_accepted] + ['A2 ' + a for a in getattr(self, 'nondet_accepted', [])],
             'wall_s': round(time.time() - self.t0, 2), 'violations': len(violations) + getattr(self, 'extra_violations', 0) + len(self.shared_findings),
         }
         # (the seed scripts run checks against deliberately broken trees: they redirect the evidence elsewhere)
